@@ -334,7 +334,13 @@ def call_bounded(sess: Session):
         out = {}
         if lemmas is None:
             out[pos] = {form}
-        poses = list(rules) if pos is None else ([pos] if pos in rules else [])
+        if lemmas is None:
+            poses = list(rules) if pos is None else ([pos] if pos in rules else [])
+        else:
+            # initialized: every part of speech of the wordnet's words (the statement says "for each part of speech");
+            # parts of speech without detachment rules only contribute the lemma itself and the irregular forms
+            every = list(rules) + [p for p in lemmas if p not in rules]
+            poses = every if pos is None else ([pos] if pos in every else [])
         base = out.get(None, set())
         for p in poses:
             cands = set()
@@ -342,7 +348,7 @@ def call_bounded(sess: Session):
                 if form in lemmas.get(p, set()):
                     cands.add(form)
                 cands |= exc.get(p, {}).get(form, set())
-            for suf, rep, _ in rules[p]:
+            for suf, rep, _ in rules.get(p, ()):
                 if form.endswith(suf) and len(suf) < len(form):
                     c = form[:len(form) - len(suf)] + rep
                     if lemmas is None or c in lemmas.get(p, set()):
@@ -371,22 +377,34 @@ def call_bounded(sess: Session):
     F = core.Form if hasattr(core, 'Form') else str
     inventory = [('n', ['glass']), ('n', ['miss']), ('a', ['free']), ('v', ['see', 'saw']), ('n', ['ox', 'oxen']),
                  ('v', ['run', 'ran']), ('n', ['goose', 'geese']), ('v', ['goose']), ('s', ['big']), ('n', ['saw']),
-                 ('v', ['dress']), ('n', ['dress']), ('a', ['well', 'better']), ('a', ['good', 'better'])]
-    inventory = [(p, [F(x, script='Latn') if k % 2 else F(x) for k, x in enumerate(fs)] if F is not str else fs)
-                 for p, fs in inventory]
+                 ('v', ['dress']), ('n', ['dress']), ('a', ['well', 'better']), ('a', ['good', 'better']),
+                 ('c', ['and', "an'"]), ('n', ['and']), ('p', ['of'])]
+    inventory = [(p, [F(x, script='Latn') if (k + n) % 2 else F(x) for k, x in enumerate(fs)] if F is not str else fs)
+                 for n, (p, fs) in enumerate(inventory)]
     inventory[0] = ('n', [F('glass', id='f1', script='Latn')] if F is not str else ['glass'])
     ini = M.Morphy(W(inventory))
     lemmas, exc = {}, {}
     for p, fs in inventory:
-        lemmas.setdefault(p, set()).add(fs[0])
+        # the reference works on plain strings (its look-ups must not go through Form.__hash__ / __eq__)
+        lemmas.setdefault(p, set()).add(str(fs[0]))
         for o in fs[1:]:
-            exc.setdefault(p, {}).setdefault(o, set()).add(fs[0])
-    for q in queries + ['saw', 'oxen', 'ran', 'geese', 'better']:
-        for pos in (None, 'n', 'v', 'a', 's', 'r', 'x'):
+            exc.setdefault(p, {}).setdefault(str(o), set()).add(str(fs[0]))
+    other_pos = []        # known finding K23: words of a part of speech without detachment rules are ignored
+    for q in queries + ['saw', 'oxen', 'ran', 'geese', 'better', 'and', "an'", 'of']:
+        for pos in (None, 'n', 'v', 'a', 's', 'r', 'x', 'c', 'p'):
             cases += 1
             got, want = ini(q, pos), reference(q, pos, lemmas, exc)
             if got != want:
-                bad.append({'mode': 'initialized', 'form': q, 'pos': pos, 'got': got, 'want': want})
+                five = {k: v for k, v in want.items() if k in rules}
+                if got == five:
+                    other_pos.append({'form': q, 'pos': pos, 'got': got, 'want': want})
+                else:
+                    bad.append({'mode': 'initialized', 'form': q, 'pos': pos, 'got': got, 'want': want})
+    if other_pos:
+        sess.violation_direct('wn.morphy.Morphy.__call__:other-parts-of-speech', 'an initialized Morphy ignores the '
+                              'lemmas and irregular forms of words whose part of speech has no detachment rules',
+                              {'witness': repr(other_pos[0]), 'cases': len(other_pos)}, True, finding='K23',
+                              functions=('wn.morphy.Morphy.__call__',))
     sess.add_bounded('wn.morphy.Morphy.__call__ / _morphstr', f'{len(queries)} query strings x 7 pos values, '
                      'uninitialized and initialized on a 14-word inventory', cases, 'differential: documented rule '
                      'semantics', not bad)
